@@ -1,6 +1,7 @@
 import AcraModel.Wire.LenEnc
 import AcraModel.Wire.PgRow
 import AcraModel.Wire.MysqlRow
+import AcraModel.Wire.Bytea
 /-! Driver ops for C12 (wire formats). -/
 namespace Driver.C12
 open AcraModel AcraModel.Wire
@@ -189,6 +190,15 @@ def handle (op : String) (args : List String) : Option String :=
       let types ← parseNats types
       let b ← ofHex b
       pure (match My.decodeBinRow types b with | some r => "some " ++ showRow r | none => "none")
+  -- bytea text codecs
+  | "bytea.octal.enc", [b] => do let b ← ofHex b; pure (hexOf (Bytea.encodeToOctal b))
+  | "bytea.octal.dec", [b] => do
+      let b ← ofHex b
+      pure (match Bytea.decodeOctal b with | some r => "ok " ++ hexOf r | none => "err")
+  | "bytea.hex.enc", [b] => do let b ← ofHex b; pure (hexOf (Bytea.pgEncodeToHex b))
+  | "bytea.escaped.dec", [b] => do
+      let b ← ofHex b
+      pure (match Bytea.decodeEscaped b with | .ok r => "ok " ++ hexOf r | .error .hex => "err-hex" | .error .octal => "err-octal")
   | _, _ => none
 
 end Driver.C12
